@@ -222,6 +222,7 @@ def gen_cases(tier, seed):
         cases.append(dict(kind="hist", key=key, alph="m3", seed=seed))
     for key in CONFIG_KEYS:
         cases.append(dict(kind="reject", key=key, seed=seed))
+        cases.append(dict(kind="layout", key=key, seed=seed))
     for key in SEEDED:
         for src in ("ternary32", "ternary23", "dense43", "dense53"):
             cases.append(dict(kind="seed", key=key, src=src, seed=seed))
@@ -760,6 +761,56 @@ class _Counter(dict):
         return 0
 
 
+def _run_layout(case, res):
+    """Purity / statelessness with respect to the MEMORY of the input (added after seeded changes keyed caches on the identity of the matrix
+    tensor and used views that only work for contiguous data): for every configuration, (1) a column-major (dense, non-contiguous) matrix
+    gives the same result as the contiguous one; (2) one instance fed a pre-allocated buffer that is re-filled in place with other
+    matrices gives, on every step, bit for bit what a new instance gives on a new tensor; (3) the buffer itself is never modified."""
+    import torch
+
+    cfg = builders()[case["key"]]
+    name, key = cfg["name"], cfg["key"]
+    m = max(3, cfg["min_rows"])
+    n = 4
+    mats = [np.array([[math.sin(1.7 * i + 0.9 * j + 0.6 * k) * (1.0 + 0.25 * ((i + j + k) % 3)) for j in range(n)] for i in range(m)]) for k in range(4)]
+    for dtype in cfg["dtypes"]:
+        dt = getattr(torch, dtype)
+        tol = (1e-3 if name == "CAGrad" else (1e-9 if dtype == "float64" else 2e-4))
+        agg = cfg["build"](m, dt)
+        buf = torch.empty((m, n), dtype=dt)
+        for k, J in enumerate(mats):
+            sc = scripts(name, m, n)[0]
+            Jt = torch.tensor(J, dtype=dt)
+            s = A.sigma_max(Jt.double().numpy())
+            fresh, e0 = _call(cfg["build"](m, dt), name, Jt, sc)
+            Jf = Jt.t().contiguous().t()  # same values, column-major
+            xf, e1 = _call(cfg["build"](m, dt), name, Jf, sc)
+            buf.copy_(Jt)
+            before = buf.numpy().tobytes()
+            xb, e2 = _call(agg, name, buf, sc)
+            res["execs"] += 3
+            if e0 is not None or e1 is not None or e2 is not None:
+                e = e0 or e1 or e2
+                res["viol"].append(dict(sig=f"totality:{name}:layout:{type(e).__name__}", msg=f"{key} {dtype} layout/buffer family step {k}: {e!r}"[:300]))
+                break
+            if buf.numpy().tobytes() != before:
+                res["viol"].append(dict(sig=f"purity:{name}:buffer-modified", msg=f"{key} {dtype}: the input buffer was modified (step {k})"))
+                break
+            a, b, c = fresh.double().numpy(), xf.double().numpy(), xb.double().numpy()
+            err = float(np.abs(a - b).max())
+            okey = f"layout:{name}:{dtype}"
+            res["maxima"][okey] = max(res["maxima"].get(okey, 0.0), err / (tol * s))
+            if not (err <= tol * s):
+                res["viol"].append(dict(sig=f"layout:{name}:{dtype}", msg=f"{key} {dtype} J={J.tolist()}: column-major input gives {b.tolist()}, contiguous {a.tolist()}"))
+                break
+            if a.tobytes() != c.tobytes():
+                res["viol"].append(dict(sig=f"stateful:{name}:reused-buffer", msg=f"{key} {dtype}: step {k} on a re-filled buffer gives {c.tolist()}, a new instance on a new tensor {a.tolist()}"))
+                break
+            res["counters"]["layout_comparisons"] += 2
+            res["nontrivial"] += 1
+            res["outcomes"].add(digest([key, dtype, k, np.round(a / max(s, 1e-300), 6).tolist()]))
+
+
 def run_case(case):
     res = dict(viol=[], execs=0, outcomes=set(), nontrivial=0, dropped=0, maxima={}, counters=_Counter())
     kind = case["kind"]
@@ -771,6 +822,8 @@ def run_case(case):
         _run_hist(case, res)
     elif kind == "seed":
         _run_seed(case, res)
+    elif kind == "layout":
+        _run_layout(case, res)
     else:
         raise HarnessError(f"unknown case kind {kind}")
     res["outcomes"] = sorted(res["outcomes"])
@@ -792,7 +845,7 @@ def finalize(tier, seed, agg, cases, results):
     c = agg["counters"]
     HarnessError = _harness_error_cls()
     kinds = {cs["kind"] for cs in cases}  # (a partial case list, --limit, only has to exercise its own parts)
-    need = dict(scale=("homog_compared", "purity_checked", "total_ok"), hist=("histories",), reject=("rejections_asserted",), seed=("seed_pairs",))
+    need = dict(scale=("homog_compared", "purity_checked", "total_ok"), hist=("histories",), reject=("rejections_asserted",), seed=("seed_pairs",), layout=("layout_comparisons",))
     for k in [k for kind in sorted(kinds) for k in need[kind]]:
         if c.get(k, 0) == 0:
             raise HarnessError(f"part of C11 was not exercised: counter {k} is 0")
